@@ -248,6 +248,10 @@ func (w *binaryWriter) WriteTimestamp(val Timestamp) error {
 
 // WriteSymbol writes a symbol value given a SymbolToken.
 func (w *binaryWriter) WriteSymbol(val SymbolToken) error {
+	if w.err != nil {
+		return w.err
+	}
+
 	var id uint64
 	if val.LocalSID != SymbolIDUnknown {
 		id = uint64(val.LocalSID)
@@ -257,7 +261,8 @@ func (w *binaryWriter) WriteSymbol(val SymbolToken) error {
 			return w.err
 		}
 	} else {
-		return &UsageError{"Writer.WriteSymbol", "symbol token without defined text or symbol id is invalid"}
+		w.err = &UsageError{"Writer.WriteSymbol", "symbol token without defined text or symbol id is invalid"}
+		return w.err
 	}
 
 	return w.writeSymbolFromID("Writer.WriteSymbol", id)
@@ -266,6 +271,10 @@ func (w *binaryWriter) WriteSymbol(val SymbolToken) error {
 // WriteSymbolFromString writes a symbol value given a string that is expected to be in the symbol table.
 // Returns an error if string is not in symbol table.
 func (w *binaryWriter) WriteSymbolFromString(val string) error {
+	if w.err != nil {
+		return w.err
+	}
+
 	var id uint64
 	id, w.err = w.resolve("Writer.WriteSymbolFromString", val)
 	if w.err != nil {
